@@ -77,6 +77,19 @@ func Alphabet() []Key {
 				all = append(all, Key{"Px,Py-leading-zero", big.NewInt(d), cp})
 			}
 		}
+		// scalars found once by an offline search (d = 4, 5, 6, ... with the stated property); the
+		// property itself is re-checked here with the reference arithmetic
+		for _, h := range []struct {
+			name   string
+			d      int64
+			lx, ly int
+		}{{"Px-2-leading-zeros", 17883, 2, 0}, {"Py-2-leading-zeros", 193197, 0, 2}, {"Px,Py-leading-zero", 278982, 1, 1}} {
+			k := mk(h.name, big.NewInt(h.d))
+			if lead(k.Pub.X) < h.lx || lead(k.Pub.Y) < h.ly {
+				panic("sm2k: hard-coded scalar " + h.name + " does not have the stated property")
+			}
+			all = append(all, k)
+		}
 	})
 	return all
 }
